@@ -214,7 +214,7 @@ def match(got, exp):
 
 def snapshot(m):
     """structural snapshot of a module: classes, keys, values, order at every level"""
-    if hasattr(m, "items") and not isinstance(m, dict):
+    if hasattr(m, "items"):
         return (type(m).__name__, [(k, snapshot(v)) for k, v in m.items()])
     if isinstance(m, list):
         return [snapshot(x) for x in m]
